@@ -75,14 +75,15 @@ NodeCells(kind, eol, ind) ==
       [] kind = "decoparen" -> <<"at", "lp">> \o A(2) \o <<eol>> \o Sp(ind) \o A(8) \o <<eol>> \o Sp(ind + 4) \o A(4)     \* @(d)
       [] kind = "decocall"  -> <<"at">> \o A(4) \o <<eol>> \o Sp(ind) \o A(8) \o <<eol>> \o Sp(ind + 4) \o A(4)     \* @d(1)
       [] kind = "deco2"     -> <<"at">> \o A(1) \o <<eol>> \o Sp(ind) \o <<"at">> \o A(1) \o <<eol>> \o Sp(ind) \o A(8) \o <<eol>> \o Sp(ind + 4) \o A(4)
+      [] kind = "decoasync" -> <<"at">> \o A(1) \o <<eol>> \o Sp(ind) \o A(14) \o <<eol>> \o Sp(ind + 4) \o A(4)    \* async def g():
       [] kind = "cls"       -> <<"at">> \o A(1) \o <<eol>> \o Sp(ind) \o A(8) \o <<eol>> \o Sp(ind + 4) \o A(4)     \* class G:
 
 \* offset (in cells) of the position the code starts from: the first decorator expression, else the node itself
-AnchorOffset(kind) == CASE kind \in {"deco", "decocall", "deco2", "cls"} -> 1
+AnchorOffset(kind) == CASE kind \in {"deco", "decocall", "deco2", "cls", "decoasync"} -> 1
                         [] kind = "decosp" -> 2
                         [] kind = "decoparen" -> 2
                         [] OTHER -> 0
-Decorated(kind) == kind \in {"deco", "decosp", "decoparen", "decocall", "deco2", "cls"}
+Decorated(kind) == kind \in {"deco", "decosp", "decoparen", "decocall", "deco2", "cls", "decoasync"}
 
 Before(l) ==
     LET fill == FoldLeft(LAMBDA acc, f : acc \o Filler(f), <<>>, l.fill)
@@ -193,6 +194,7 @@ AlgorithmRight == ~Gap(l)
 (* The re-like API (second generator, INIT InitApi).  A module is a sequence of 1..MaxStmts statements:      *)
 (*   "callf"  f(1)          "callg"  g(2)        "assignf"  x = f(3)                                       *)
 (*   "def"    def h(): / f(4)   (two lines)      "deco"     @d / def k(): / pass                            *)
+(*   "binf"   f(5) + 2   the call begins the statement but lies deeper in the tree than a statement-level call     *)
 (* A pattern kind says which nodes it matches:                                                              *)
 (*   "callf"   f({{x}})        the call itself (the whole statement in "callf", a part of it elsewhere)      *)
 (*   "assign"  {{a}} = {{b}}   assignment statements        "funcdef"  any function definition               *)
@@ -204,8 +206,8 @@ CONSTANTS StmtKinds, PatKinds, MaxStmts
 
 MatchesOf(pat, stmts) ==
     CASE pat = "callf" ->
-            {[from |-> i, to |-> i, whole |-> stmts[i] = "callf", atstart |-> stmts[i] = "callf"] :
-                i \in {j \in 1..Len(stmts) : stmts[j] \in {"callf", "assignf", "def"}}}
+            {[from |-> i, to |-> i, whole |-> stmts[i] = "callf", atstart |-> stmts[i] \in {"callf", "binf"}] :
+                i \in {j \in 1..Len(stmts) : stmts[j] \in {"callf", "assignf", "def", "binf"}}}
       [] pat = "assign" ->
             {[from |-> i, to |-> i, whole |-> TRUE, atstart |-> TRUE] : i \in {j \in 1..Len(stmts) : stmts[j] = "assignf"}}
       [] pat = "funcdef" ->
